@@ -142,7 +142,13 @@ pub fn handshake(rng: &mut Rng, kind: &str, budget: usize) -> Item {
             .bytes("random", &rng.bytes(32))
             .int("cipher", cipher_id(rng) as u64)
             .opt_bytes("ext", opt_ext(rng, (b / 2).min(65535)).as_deref()),
-        "new_session_ticket" => it.int("hint", rng.u32() as u64).bytes("ticket", &blob(rng, b)),
+        "new_session_ticket" => {
+            // RFC 5077: uint32 lifetime hint, then opaque ticket<0..2^16-1> (its own u16 length prefix)
+            let t = blob(rng, b.min(60000));
+            let mut full = (t.len() as u16).to_be_bytes().to_vec();
+            full.extend(t);
+            it.int("hint", rng.u32() as u64).bytes("ticket", &full)
+        }
         "hello_retry_request" => it
             .int("ver", version(rng) as u64)
             .int("cipher", rng.u16() as u64)
